@@ -250,4 +250,90 @@ example : (binKppi 4 (halfShape 4) 1 (fun _ => 0) [0, 1, 3] [0, 1, 5] (fun _ _ _
     some [[15, 5], [12, 4]] := by
   decide +kernel
 
+/-! ### multipoles -/
+
+theorem cntT_zero (ts : List (List Contrib)) (b m : Nat) (h : cntT ts b m = 0) : ∀ cs ∈ ts, cnt cs b m = 0 := by
+  intro cs hcs
+  have := mem_le_sum (ts.map (fun cs => cnt cs b m)) (cnt cs b m) (List.mem_map.mpr ⟨cs, hcs, rfl⟩)
+  unfold cntT at h
+  rw [natSum_eq] at h
+  omega
+
+theorem wsumT_zero (F : Nat → Nat → Nat → Rat) (ts : List (List Contrib))
+    (hw1 : ∀ cs ∈ ts, ∀ c ∈ cs, 1 ≤ c.w) (b m : Nat) (h : cntT ts b m = 0) : wsumT F ts b m = 0 := by
+  unfold wsumT
+  rw [ratSum_eq]
+  apply List.sum_eq_zero
+  intro x hx
+  obtain ⟨cs, hcs, rfl⟩ := List.mem_map.mp hx
+  exact wsum_zero_of_cnt_zero F cs (hw1 cs hcs) b m (cntT_zero ts b m h cs hcs)
+
+/-- `Σ F` of a bin is its mode count times its reported mean -/
+theorem wsumT_eq_count_mul_mean (F : Nat → Nat → Nat → Rat) (ts : List (List Contrib))
+    (hw1 : ∀ cs ∈ ts, ∀ c ∈ cs, 1 ≤ c.w) (b m : Nat) :
+    wsumT F ts b m = (cntT ts b m : Rat) * divIf (wsumT F ts b m) (cntT ts b m) := by
+  unfold divIf
+  by_cases h : cntT ts b m = 0
+  · rw [if_pos h, wsumT_zero F ts hw1 b m h]; simp
+  · rw [if_neg h]
+    have : (cntT ts b m : Rat) ≠ 0 := by exact_mod_cast h
+    field_simp
+
+/-- **monopole_is_mu_average.**  The `l = 0` row of `weighted_counts_poles` that `bin_kmu` reports
+(`poleRow … 0`) is, for every `k` bin, the mode-count-weighted average over the mu bins of the reported
+wedge means `power[b][m] = divIf (wsumT …) (cntT …)`:
+`pole_0[b] = Σ_m counts[b][m] · power[b][m] / Σ_m counts[b][m]`. -/
+theorem monopole_is_mu_average (n T : Nat) (hn : 1 ≤ n) (assign : Nat → Nat) (ek em : List Rat)
+    (hek : ek ≠ []) (hem : em.tail ≠ []) (h1 : 1 ≤ em.tail.getLast hem) (hT : ∀ i < n, assign i < T)
+    (F : Nat → Nat → Nat → Rat) (nb nm : Nat) :
+    ∃ ts, allThreads (kmuRow n ek em (halfShape n)) n T assign = .ok ts ∧
+      poleRow F ts nb nm 0 = .ok ((List.range nb).map (fun b =>
+        divIf (ratSum ((List.range nm).map (fun m =>
+          (cntT ts b m : Rat) * divIf (wsumT F ts b m) (cntT ts b m)))) (cpoleT ts nm b))) := by
+  obtain ⟨ts, hts, hw1, _⟩ := kmu_threads_counts n T hn assign ek em hek hem h1 hT
+  refine ⟨ts, hts, ?_⟩
+  unfold poleRow
+  apply mapM_ok
+  intro b _
+  rw [if_pos rfl]
+  congr 3
+  apply List.map_congr_left
+  intro m _
+  exact wsumT_eq_count_mul_mean F ts hw1 b m
+
+example : (binKmu 3 (halfShape 3) 1 (fun _ => 0) [0, 1, 4] [0, 1 / 2, 1] [0]
+      (fun i j k => (i + 3 * j + 9 * k : Nat))).toOption.map (fun o => (o.counts, o.power, o.poles)) =
+    some ([[5, 2], [20, 0]], [[12 / 5, 9], [12, 0]], [[30 / 7, 12]]) ∧
+    (5 * (12 / 5) + 2 * 9 : Rat) / (5 + 2) = 30 / 7 := by
+  decide +kernel
+
+/-- **legendre_table.**  For every even order `n ≤ 10`, `P_n` as coded (the binomial sum
+`2^{-n} Σ_k (-1)^k C(n,k) C(2n-2k,n) x^{n/2-k}` in `x = mu²`, with the factorial table and the floor
+division of `n_choose_k`) has exactly the coefficients of the Legendre polynomial `P_n(mu)` defined by
+Bonnet's recursion — no table entry overflows or is rejected. -/
+theorem legendre_table : ∀ n ∈ [0, 2, 4, 6, 8, 10],
+    (pnCoeffs n).toOption.map (fun cs => interleave0 (cs.reverse.map (fun (c : Int) => (c : Rat) / 2 ^ n))) =
+      some (legendre n) := by
+  decide +kernel
+
+/-- orders above 10 need `factorial(2n)` with `2n > 20`: the coded `P_n` raises -/
+example : Pn (1 / 3) 12 = .error .rejected := by decide +kernel
+
+/-- the loop of `P_n` evaluates those coefficients: closed forms for the orders `bin_kmu` is used with -/
+theorem Pn_two (x : Rat) : Pn x 2 = .ok ((3 * x - 1) / 2) := by
+  simp [Pn, PnLoop, pnFactor, nChooseK, factorial, factTable, pyIndex, List.range, List.range.loop,
+    bind, Except.bind]
+  ring
+
+theorem Pn_four (x : Rat) : Pn x 4 = .ok ((35 * x ^ 2 - 30 * x + 3) / 8) := by
+  simp [Pn, PnLoop, pnFactor, nChooseK, factorial, factTable, pyIndex, List.range, List.range.loop,
+    bind, Except.bind]
+  ring
+
+theorem Pn_zero (x : Rat) : Pn x 0 = .ok 1 := by
+  simp [Pn, PnLoop, pnFactor, nChooseK, factorial, factTable, pyIndex, List.range, List.range.loop,
+    bind, Except.bind]
+
+example : peval (legendre 4) (1 / 2) = (35 * (1 / 4 : Rat) ^ 2 - 30 * (1 / 4) + 3) / 8 := by decide +kernel
+
 end AbacusVerif.Binning
